@@ -123,6 +123,7 @@ KANI_UNITS["C45"] = dict(
     prop="C45", crate="varpulis-runtime",
     appends=[("crates/varpulis-runtime/src/circuit_breaker.rs", "__vpv_c45", "contracts/kani/c45.rs")],
     grade="K-complete", level="other", timeout=2400, harness_timeout=600,
+    cell_grades={"c45_opens_after": "K-bounded(thresholds 1..=4, 4 failures)"},
     functions=["varpulis-runtime/src/circuit_breaker.rs: CircuitBreaker::new, allow_request, record_success, record_failure, state"],
     explanation=("PARTIAL (breaker only; 'never loses an event' NOT decided). The contract is the 20-line step function spec_step (contracts/kani/c45.rs). Loop-free cells over ALL "
                  "inner states (state x consecutive_failures x last_failure present/absent), all thresholds >= 1, all reset timeouts and all elapsed times prove that each real "
